@@ -56,7 +56,7 @@ def run(rep, strict_diff):
         if f.is_file(): f.unlink()
     harness = V.build_harness("C06_retime")
     driver = V.build_model("C01", name="C01")
-    n = 40 if rep.tier == "quick" else 500
+    n = 40 if rep.tier == "quick" else 300
     rnd = random.Random(rep.seed * 9176 + 3)
     pairs, progs = [], []
     k = 0
@@ -254,7 +254,7 @@ def run_wide(rep, strict_diff):
         if f.is_file(): f.unlink()
     harness = V.build_harness("C01_design")
     driver = V.build_model("C01", name="C01")
-    n = 40 if rep.tier == "quick" else 500
+    n = 40 if rep.tier == "quick" else 250
     pairs, progs = [], []
     for i in range(n):
         a, _ = widegen.gen_wide_design(rep.seed * 810001 + i, f"WA{i}")
@@ -276,7 +276,7 @@ def run_wide(rep, strict_diff):
             if "SKIP" in ta: break
             for i in (ia, ib): cmds.append(f"tie {work}/{i}.{v}.net {work}/{i}.{v}.trace")
             nin = sum(1 if l.startswith("inb ") else int(l.split()[2]) for l in prog[ia] if l.startswith(("in ", "inb ")))
-            if 3 ** nin <= (243 if rep.tier == "quick" else 2187):
+            if 3 ** nin <= (243 if rep.tier == "quick" else 729):
                 # few input bits: the verified certificate closes all stimuli and cycles for this wide pair too
                 cmds.append(f"cert {'strict' if v == 'pre' else 'compat'} {work}/{ia}.{v}.net {work}/{ib}.{v}.net {work}/{ia}.{v}.trace 400000")
             found = False
